@@ -457,16 +457,22 @@ def record_sig_spends(run: Run, n: int) -> list[dict[str, Any]]:
     def key_bytes(d: int, form: str) -> bytes:
         P = mult(d)
         x, y = P[0].to_bytes(32, "big"), P[1].to_bytes(32, "big")
-        return {"c": bytes([2 + P[1] % 2]) + x, "u": b"\x04" + x + y, "h": bytes([6 + P[1] % 2]) + x + y}[form]
+        # c compressed, u uncompressed, h hybrid; malformed: x = 33 bytes under prefix 05, s = 32 bytes under 02, l = 34 bytes under 02, t = 65 bytes under 02, e = empty
+        return {"c": bytes([2 + P[1] % 2]) + x, "u": b"\x04" + x + y, "h": bytes([6 + P[1] % 2]) + x + y, "x": b"\x05" + x, "s": b"\x02" + x[:31], "l": b"\x02" + x + b"\x00",
+                "t": b"\x02" + x + y, "e": b""}[form]
 
-    for _ in range(n):
-        nk = r.choice([1, 1, 2, 3])
-        multi = r.random() < 0.6
+    # stratified: every (signature pattern, [NOT], CHECKSIG / CHECKMULTISIG) cell is visited n/44 times, the rest (keys, wrapping, flags) is drawn
+    patterns = ["all valid", "one empty", "last empty", "first empty", "reversed", "one wrong message", "one high s", "hash type 0", "one padded r", "all empty", "wrong key"]
+    cells = [(pt_, tl, mu) for pt_ in patterns for tl in (b"", b"\x91") for mu in (False, True)]
+    r.shuffle(cells)
+    for it in range(n):
+        pattern, tail, multi = cells[it % len(cells)]
+        nk = r.choice([1, 1, 2, 3]) if multi else 1
         ds = [r.randrange(1, N_) for _ in range(nk)]
-        forms = [r.choice("cccuh") for _ in range(nk)]
+        forms = [r.choice("cccccuuhhxslte") for _ in range(nk)]
         keys = [key_bytes(d, f) for d, f in zip(ds, forms)]
         m = r.randint(1, nk) if multi else 1
-        tail = r.choice([b"", b"\x91", b"\x91"])                      # OP_NOT: the script survives a false
+        # (tail = OP_NOT: the script survives a false)
         if multi:
             script = bytes([0x50 + m]) + b"".join(push(k) for k in keys) + bytes([0x50 + nk]) + b"\xae" + tail
         else:
@@ -501,7 +507,6 @@ def record_sig_spends(run: Run, n: int) -> list[dict[str, Any]]:
 
         # which signatures, in which order and state
         order = sorted(r.sample(range(nk), m)) if multi else [0]
-        pattern = r.choice(["all valid", "all valid", "one empty", "last empty", "first empty", "reversed", "one wrong message", "one high s", "hash type 0", "one padded r", "all empty", "wrong key"])
         states = ["valid"] * len(order)
         if pattern == "one empty":
             states[r.randrange(len(states))] = "empty"
@@ -644,6 +649,24 @@ def check(run: Run) -> None:
 def replay(path: str) -> int:
     body = json.load(open(path))
     e = body.get("event")
+    if e and e.get("op") == "verify":       # a spend judged by ScriptSigs: re-run the library on it, then the specification
+        from btclib.exceptions import BTClibException
+        from btclib.script.engine import verify_input
+        from btclib.tx import Tx, TxOut
+
+        tx = Tx.parse(bytes.fromhex(e["tx"]))
+        prev = [TxOut(int(p["value"] or "0", 16), bytes.fromhex(p["spk"]), check_validity=False) for p in e["prevouts"]]
+        try:
+            verify_input(prev, tx, e["idx"], e["flags"])
+            ok = True
+        except BTClibException:
+            ok = False
+        keep = ("op", "tx", "prevouts", "idx", "flags")
+        _, bad, diag = events.validate("C10Trace", [{**{k: v for k, v in e.items() if k in keep}, "ok": ok}])
+        if bad:
+            print(f"VIOLATION property=C08 replay={path}  # {e.get('kind')}: btclib {'accepts' if ok else 'refuses'}, Core's rules give {diag.get(0)}")
+            return 1
+        return 0
     if e:
         _, bad, diag = events.validate("C08Trace", [e])
         if bad:
